@@ -128,9 +128,7 @@ func VerifC04_TrieCommitReleasesLock() {
 	} else {
 		vs.Reach("commit-ok")
 	}
-	vs.Known("C04-trie-commit-rlock-leak", err != nil && npre > 0 && disk.big && disk.failAt <= npre)
 	vs.Assert(db.VerifLockFree(), "Database.lock is not held after Commit returns")
-	vs.Known("", true)
 
 	if err == nil {
 		// flushed: children before parents, everything of the trie on disk
